@@ -147,20 +147,17 @@ func loadKnown(path string) ([]knownFinding, error) {
 		if !strings.HasPrefix(line, "known:") {
 			continue
 		}
-		fields := strings.Fields(strings.TrimPrefix(line, "known:"))
+		// known: property=<id> key=<obligation key, may contain spaces> :: <what fails>
+		body := strings.TrimSpace(strings.TrimPrefix(line, "known:"))
 		var k knownFinding
-		var rest []string
-		for _, f := range fields {
-			switch {
-			case strings.HasPrefix(f, "property=") && k.Prop == "":
-				k.Prop = strings.TrimPrefix(f, "property=")
-			case strings.HasPrefix(f, "key=") && k.Key == "":
-				k.Key = strings.TrimPrefix(f, "key=")
-			default:
-				rest = append(rest, f)
+		head, text, _ := strings.Cut(body, " :: ")
+		k.Text = strings.TrimSpace(text)
+		if rest, ok := strings.CutPrefix(head, "property="); ok {
+			if i := strings.Index(rest, " key="); i > 0 {
+				k.Prop = strings.TrimSpace(rest[:i])
+				k.Key = strings.TrimSpace(rest[i+5:])
 			}
 		}
-		k.Text = strings.Join(rest, " ")
 		if k.Prop == "" || k.Key == "" {
 			return nil, fmt.Errorf("malformed known-finding line: %q", line)
 		}
